@@ -82,6 +82,17 @@ theorem ascii_emits_documented_substitute (enc : PStr) (he : enc ∈ carriers) (
 
 example : convertFrom nWindows1252 .ascii [0x99] = some (ofS "(TM)") := of_evalsTo (by decide +kernel)
 
+/-- The documented substitutes, pinned: the 32 entries of `MS_CHARS_TO_ASCII` that can ever be used
+    (keys 0x80–0x9F) are the ones bs4 4.13.0 documents in its source — EUR , f ,, ... + ++ ^ % S < OE ? Z ? ?
+    ' ' " " * - -- ~ (TM) s > oe ? z Y (and a blank for 0x81).  Any change of an entry breaks this. -/
+theorem ascii_substitutes_are_the_documented_ones :
+    smartBytes.map (fun b => liveTables.toAscii.lookup b) =
+      [some [69, 85, 82], some [32], some [44], some [102], some [44, 44], some [46, 46, 46], some [43], some [43, 43],
+       some [94], some [37], some [83], some [60], some [79, 69], some [63], some [90], some [63],
+       some [63], some [39], some [39], some [34], some [34], some [42], some [45], some [45, 45],
+       some [126], some [40, 84, 77, 41], some [115], some [62], some [111, 101], some [63], some [122], some [89]] :=
+  of_evalsTo (by decide +kernel)
+
 /-- No conversion requested: the result is the plain strict decoding in the proposed codec, for every
     codec name and every input. -/
 theorem none_mode_is_plain_decode (enc : PStr) (markup : Bytes) :
@@ -200,6 +211,68 @@ theorem smart_quotes_preserve_characters (enc : PStr) (he : enc ∈ carriers) (m
   · simp only [hs, Bool.false_eq_true, if_false]
     rw [← other_bytes_untouched enc mode b (by simpa using hs)]
     exact hp
+
+/-- For a carrier with a mode set the conversion of a whole input is the concatenation of the
+    conversions of its bytes (a total function of the input). -/
+theorem carrier_conversion_flatten (enc : PStr) (he : enc ∈ carriers) (mode : Mode) (hm : mode ≠ .none)
+    (markup : Bytes) (hbytes : ∀ b ∈ markup, b < 256) :
+    convertFrom enc mode markup = some ((markup.map fun b => (convertFrom enc mode [b]).getD []).flatten) := by
+  have hf : ∀ b ∈ markup, convertFrom enc mode [b] = some ((convertFrom enc mode [b]).getD []) := by
+    intro b hb
+    obtain ⟨_, hs⟩ := carrier_conversion_total enc he mode hm b (hbytes b hb)
+    obtain ⟨p, hp⟩ := Option.isSome_iff_exists.mp hs
+    simp [hp]
+  obtain ⟨⟨t, ht⟩, _⟩ := carrier_conversion_total enc he mode hm 0 (by omega)
+  exact convert_is_bytewise enc t ht mode markup _
+    (Bytewise.of_total (R := fun b p => convertFrom enc mode [b] = some p) _ markup hf)
+
+/-- **"Un-escaping what was produced gives exactly the character the byte denotes" for whole strings.**
+    For a carrier encoding (whose byte table is `t`), mode `xml` or `html`, and any input without a literal
+    `&` whose bytes 0x80–0x9F are all defined in Windows-1252: un-escaping the converted text gives, character
+    for character, the input read with Windows-1252 for 0x80–0x9F and with the carrier's own table for every
+    other byte. -/
+theorem unescaping_the_conversion_gives_the_characters (enc : PStr) (he : enc ∈ carriers) (t : List (Option Nat))
+    (ht : codecOf enc = some (.table t)) (mode : Mode) (hm : mode = .xml ∨ mode = .html) (markup : Bytes)
+    (h : ∀ b ∈ markup, b < 256 ∧ b ≠ 38 ∧ (isSmart b = true → (cp1252At b).isSome = true)) :
+    ∃ u, convertFrom enc mode markup = some u ∧ unescapeAll u = markup.map (meantChar t) := by
+  have hx : unescCheckAll liveTables .xml = true := by decide +kernel
+  have hh : unescCheckAll liveTables .html = true := by decide +kernel
+  have hall : (List.range 256).all (unescCheck liveTables mode enc t) = true := by
+    have : unescCheckAll liveTables mode = true := by
+      rcases hm with rfl | rfl
+      · exact hx
+      · exact hh
+    have := List.all_eq_true.mp this enc he
+    simp only [ht] at this
+    exact this
+  have hne : mode ≠ .none := by rcases hm with rfl | rfl <;> simp
+  refine ⟨_, carrier_conversion_flatten enc he mode hne markup (fun b hb => (h b hb).1), ?_⟩
+  exact unescape_flatten liveTables mode enc t hall markup h
+
+example : unescapeAll (ofS "a&ldquo;" ++ ofS "b&#x178;") = [0x61, 0x201C, 0x62, 0x178] := of_evalsTo (by decide +kernel)
+
+/-- In particular for `windows-1252`: converting to references and un-escaping them again is the same as
+    not converting at all — plain Windows-1252 decoding of the input. -/
+theorem windows1252_conversion_unescapes_to_plain_decoding (mode : Mode) (hm : mode = .xml ∨ mode = .html) (markup : Bytes)
+    (h : ∀ b ∈ markup, b ≠ 38 ∧ (cp1252At b).isSome = true) :
+    ∃ u, convertFrom nWindows1252 mode markup = some u ∧ convertFrom nWindows1252 .none markup = some (unescapeAll u) := by
+  have hc : codecOf nWindows1252 = some (.table Gen.Detwingle.cp1252) := of_evalsTo (by decide +kernel)
+  have hw : nWindows1252 ∈ carriers := documented_carriers_present.1
+  have hl : Gen.Detwingle.cp1252.length = 256 := by decide +kernel
+  obtain ⟨u, h1, h2⟩ := unescaping_the_conversion_gives_the_characters nWindows1252 hw _ hc mode hm markup
+    (fun b hb => ⟨cp1252At_lt b hl (h b hb).2, (h b hb).1, fun _ => (h b hb).2⟩)
+  refine ⟨u, h1, ?_⟩
+  rw [none_mode_is_plain_decode, hc]
+  simp only [Option.bind_some, decodeStrict]
+  rw [decodeTable_map _ markup (fun b hb => (h b hb).2), h2]
+  congr 1
+  apply List.map_congr_left
+  intro b _
+  unfold meantChar cp1252At
+  split <;> rfl
+
+example : convertFrom nWindows1252 .none [0x61, 0x93, 0xE9, 0x9F] = some [0x61, 0x201C, 0xE9, 0x178] :=
+  of_evalsTo (by decide +kernel)
 
 /-! ### The constructor: byte-order marks, declarations, spellings of encoding names, history -/
 
